@@ -225,7 +225,28 @@ def order(F, res):
                 iter_src_ok = True
     in_loop = pushes and all(any(p in body for body in loops.values()) for p in pushes)
     sorts = any(discharge_sort(t) for _, t in mir.calls(f))
-    if in_loop and iter_src_ok and not sorts:
+    # every push into the field list happens in a loop that walks the *declaration's* fields (element type RecordField of the
+    # case definition), not the constructor's own field list (RecordConstructorField: the order the fields were written in)
+    wrong_driver = None
+    for pb in pushes:
+        t_push = f["blocks"][pb]["t"]
+        tgt = " ".join(t_push.get("gargs") or [])
+        if "v1beta0::Expression" not in tgt:
+            continue
+        inner = None
+        for h, body in loops.items():
+            if pb in body and (inner is None or len(body) < len(inner[1])):
+                inner = (h, body)
+        if inner is None:
+            continue
+        drivers = [f["blocks"][b]["t"] for b in inner[1] if f["blocks"][b]["t"]["k"] == "call" and f["blocks"][b]["t"].get("method") == "next"
+                   and f["blocks"][b]["t"].get("trait") == "std::iter::Iterator"]
+        tys = " ".join(" ".join(d.get("gargs") or []) for d in drivers)
+        if "RecordConstructorField" in tys or ("ast::RecordField" not in tys and "VariantCase" not in tys):
+            wrong_driver = (t_push["line"], tys[:120])
+    if in_loop and iter_src_ok and not sorts and wrong_driver:
+        res.add([finding("ORDER", key2, where(f, wrong_driver[0]), "record fields are pushed while walking %s instead of the case definition's fields: they come out in the order they were written, not in declaration order" % (wrong_driver[1] or "another collection"))])
+    elif in_loop and iter_src_ok and not sorts:
         res.add([ok("ORDER", key2, w, "fields.push(..) inside `for (index, field_def) in case_def.fields.iter().enumerate()`; no reordering")])
     else:
         res.add([finding("ORDER", key2, w, "record fields are not emitted in the declaration order of the case")])
